@@ -1,0 +1,7 @@
+//go:build verif
+// +build verif
+
+package distributed
+
+// VerifSetClock replaces the package clock (verification hook).
+func VerifSetClock(f func() int64) { clock = f }
